@@ -1,6 +1,7 @@
 package logqlmetric
 
 import (
+	"cmp"
 	"math"
 
 	"github.com/tdakkota/docker-logql/internal/otelstorage"
@@ -18,14 +19,34 @@ type Sample struct {
 	Set  AggregatedLabels
 }
 
-// Less compares two samples by value.
+// Less reports whether a sorts before b, see [Sample.compare].
 func (a Sample) Less(b Sample) bool {
-	return math.IsNaN(a.Data) || a.Data < b.Data
+	return a.compare(b) < 0
 }
 
-// Greater compares two samples by value.
+// Greater reports whether a sorts after b, see [Sample.compare].
 func (a Sample) Greater(b Sample) bool {
-	return math.IsNaN(a.Data) || a.Data > b.Data
+	return a.compare(b) > 0
+}
+
+// compare orders samples by value, NaN before any number. Samples of equal
+// value are ordered by the key of their label set, so that the order (and what
+// topk/bottomk keep) does not depend on the order samples arrive in.
+func (a Sample) compare(b Sample) int {
+	switch aNaN, bNaN := math.IsNaN(a.Data), math.IsNaN(b.Data); {
+	case aNaN && !bNaN:
+		return -1
+	case !aNaN && bNaN:
+		return 1
+	case a.Data < b.Data:
+		return -1
+	case a.Data > b.Data:
+		return 1
+	}
+	if a.Set == nil || b.Set == nil {
+		return 0
+	}
+	return cmp.Compare(a.Set.Key(), b.Set.Key())
 }
 
 // Series is a grouped set of metric points.
